@@ -53,6 +53,14 @@ type vReader struct {
 	rest   *vItem /* what did not fit into the caller's buffer: returned by the next Read, before anything queued later */
 }
 
+// vScratch: the buffers of Reads which are waiting for data.  io.Reader: "Even if Read returns n < len(p), it may use all of p as scratch
+// space during the call" - so whenever some stream's Read delivers data, every OTHER stream's waiting Read (e.g. the lingering reader of a
+// shell which is no longer attached) scribbles over the buffer it was given.  Harmless unless two streams were handed the same memory.
+var vScratch = struct {
+	mu      sync.Mutex
+	waiting map[*vReader][]byte
+}{waiting: map[*vReader][]byte{}}
+
 func (r *vReader) Read(p []byte) (int, error) {
 	if nil != r.sticky {
 		return 0, r.sticky
@@ -62,12 +70,30 @@ func (r *vReader) Read(p []byte) (int, error) {
 		it, r.rest = *r.rest, nil
 	} else {
 		var ok bool
-		if it, ok = <-r.ch; !ok {
+		vScratch.mu.Lock()
+		vScratch.waiting[r] = p
+		vScratch.mu.Unlock()
+		it, ok = <-r.ch
+		vScratch.mu.Lock()
+		delete(vScratch.waiting, r)
+		vScratch.mu.Unlock()
+		if !ok {
 			r.sticky = io.EOF
 			return 0, io.EOF
 		}
 	}
 	n := copy(p, it.data)
+	if 0 < n {
+		vScratch.mu.Lock()
+		for o, q := range vScratch.waiting {
+			if o != r {
+				for k := range q {
+					q[k] = 0xEE
+				}
+			}
+		}
+		vScratch.mu.Unlock()
+	}
 	if n < len(it.data) { /* More than the buffer holds: keep the rest. */
 		r.rest = &vItem{data: it.data[n:], err: it.err}
 		return n, nil
